@@ -81,6 +81,17 @@ def ob_merge(form, tier="quick"):
             f, _ = mk_front(CF, f"s{i}", k)
             fronts.append(f)
             conds.append(EH("bool", name=f"cond{i}"))
+        if n >= 2 and c.choose([True, True], "receiver-simplified-after-fork") == 1:
+            # a history the code allows: the solvers share constraints from before a fork, and the RECEIVER was simplified afterwards -
+            # simplify() replaces its constraints by equivalent ones but leaves constraints_wo_annotations (a de-duplication aid) stale
+            pre = [EH("bool", name="pre") for _ in range(1 + c.choose([True, True], "n-pre-fork"))]
+            for f in fronts:
+                f.add(pre)
+            twins = []
+            for x in fronts[0].constraints:
+                t = EH("bool", vals=list(x.vals), name="simp")
+                twins.append(t)
+            fronts[0].constraints = twins            # equivalent, other nodes; the hash set still names the old ones
         snaps = [(f.constraints, list(f.constraints)) for f in fronts]
         label = f"ConstrainedFrontend.merge[{form}]"
         try:
